@@ -52,6 +52,65 @@ def check(ctx, sc, uni):
         ctx.sample({"scenario": {k: sc[k] for k in ("req", "shallow", "fail", "corrupt", "dest", "verify")}, "result": d})
 
 
+def check_unreadable_dir(ctx, rng):
+    """a requested directory object that the status query reports new but whose listing cannot be read at transfer time
+    (damaged in the source yet trusted by it: write-protected in a local store, or any file in a generic one; or vanishing
+    between the status query and the copy loop). The model knows no unreadable listings, so this family is oracle-only:
+    the transfer may give up (raise) - but a result it does return must tell the truth."""
+    import os
+
+    from dvc_data.hashfile.transfer import transfer
+
+    from .util import safe_call
+
+    uni = stores.Universe(rng, ntrees=rng.randrange(1, 4))
+    trees = list(uni.trees)
+    root = ctx.mkdtemp()
+    src_local, dest_local = rng.random() < 0.5, rng.random() < 0.5
+    src = stores.make_odb(os.path.join(root, "src"), local=src_local)
+    dest = stores.make_odb(os.path.join(root, "dest"), local=dest_local)
+    stores.populate(src, uni, uni.all_oids())
+    victim = rng.choice(trees)
+    how = rng.choice(["truncated", "not_a_list", "empty", "vanishes"])
+    raw = uni.data(victim)
+    if how != "vanishes":
+        bad = {"truncated": raw[: max(1, len(raw) // 2)], "not_a_list": b'{"md5": "x"}', "empty": b""}[how]
+        stores.put_raw(src.path, victim, bad, mode=0o444)
+    pre = [o for o in uni.all_oids() if o != victim and not o.endswith(".dir") and rng.random() < 0.2]
+    stores.populate(dest, uni, pre)
+    req_dirs = [victim] + [t for t in trees if t != victim and rng.random() < 0.6]
+    req = list(req_dirs)
+    for t in req_dirs:
+        req += [f for f in uni.listing(t) if f not in req]
+    case = {"unreadable_dir": how, "victim": victim, "req": req, "src_local": src_local, "dest_local": dest_local, "dest": sorted(pre),
+            "trees": {d: {"/".join(k): v for k, v in e.items()} for d, e in uni.trees.items()}}
+    ctx.case(case, nontrivial=True)
+
+    def hook(status):
+        if how == "vanishes":
+            p = os.path.join(src.path, victim[:2], victim[2:])
+            if os.path.exists(p):
+                os.chmod(p, 0o644)
+                os.remove(p)
+
+    before = set(stores.listing_of(dest.path))
+    kind, res = safe_call(lambda: transfer(src, dest, {stores.hi(o) for o in req}, shallow=True, validate_status=hook))
+    after = set(stores.listing_of(dest.path))
+    ctx.count("unreadable_dir:%s -> %s" % (how, "result" if kind == "ok" else "raised"))
+    bad = stores.closed_violations(dest.path)
+    ctx.oracle(not bad, case, {"why": "the destination is not closed after a transfer with an unreadable directory object", "dangling": bad[:3]})
+    if kind != "ok":
+        return
+    tr, fl = set(stores.vals(res.transferred)), set(stores.vals(res.failed))
+    ctx.oracle(tr <= after, case, {"why": "an object reported as transferred is absent from the destination", "absent": sorted(tr - after),
+                                   "transferred": sorted(tr), "failed": sorted(fl)})
+    for o in req:
+        if o not in after:
+            ctx.oracle(o in fl, case, {"why": "a requested object is absent afterwards but not reported as failed", "object": o,
+                                       "transferred": sorted(tr), "failed": sorted(fl)})
+    ctx.oracle(not ((tr | fl) & before), case, {"why": "an object already present was reported", "reported": sorted((tr | fl) & before)})
+
+
 def run_cases(ctx, n):
     for i in range(n):
         sc, uni = xfer.gen_scenario(ctx.rng, want_verify=(i % 3 == 0) or None)
@@ -62,11 +121,13 @@ def run(ctx):
     ctx.rule = (
         "requests of files and directory objects (shallow or expanded) over stores with arbitrary initial contents, random "
         "failing uploads, corrupt sources under verify (every third scenario forces verify), directories with files missing on both "
-        "sides, both store classes, with/without remote index. non-trivial = something new to send and a failing or corrupt object; "
+        "sides, both store classes, with/without remote index; requests holding a directory object that the source reports present but whose listing cannot be read at transfer time (damaged yet trusted, or vanishing between the status query and the copy loop): oracle-only. non-trivial = something new to send and a failing or corrupt object; "
         "distinct = sha256 of the scenario"
     )
     ctx.assumptions = ["a corrupt unprotected object may be dropped from a *local* source by the existence query (mandated by C07)"]
     run_cases(ctx, ctx.n(260, 3000))
+    for _ in range(ctx.n(40, 400)):
+        check_unreadable_dir(ctx, ctx.rng)
 
 
 def search(ctx):
@@ -75,4 +136,7 @@ def search(ctx):
 
 def replay(ctx, payload):
     sc = payload.get("case") or payload.get("diverging_case")
-    check(ctx, sc, xfer.rebuild(sc))
+    if "unreadable_dir" in sc:
+        run(ctx)
+    else:
+        check(ctx, sc, xfer.rebuild(sc))
